@@ -43,7 +43,7 @@ impl Prop for C16 {
         ]
     }
     fn cases(&self, tier: Tier) -> u64 {
-        tier.pick(150_000, 5_000_000)
+        tier.pick(600_000, 8_000_000)
     }
     fn strategy(&self, tier: Tier) -> BoxedStrategy<Case> {
         prop_oneof![
